@@ -121,7 +121,8 @@ Definition th_facts1 (g : shared) (T : list thread) (rp : pc) (th : thread) : Pr
   | PM0 k => s_open (getst g (g_cur g)) = true /\ krot_f g T k
   | PM1 y k | PM2 y k | PM3 y k => y = g_cur g /\ s_open (getst g y) = true /\ krot_f g T k
   | PM4 y f k => S y = g_cur g /\ krot_f g T k
-  | PRel _ _ k | PLast _ _ k | PRun _ _ _ k => krot_f g T k
+  | PRel _ _ k | PLast _ _ k | PRun _ _ _ k =>
+      krot_f g T k /\ (k = KRetry -> op_locking th = true -> g_await g = None)
   | PC5 x | PC6 x => x = g_cur g
   | PCSwapped x e => S x = g_cur g /\ e = g_cur g /\ s_open (getst g x) = true
   | PRT3 => K g T <= 1 /\ g_await g <> None
